@@ -99,6 +99,9 @@ static mut PROBE_DROPS: usize = 0;
 static mut REG: *const RcBox<Probe> = core::ptr::null();
 static mut REG_PEER: *const RcBox<Probe> = core::ptr::null();
 static mut EXPECT_WEAK: usize = 0;
+/// when set, the value's destructor releases one Weak handle to the dying object (as a value that owns a
+/// Weak to its own allocation does): the smallest call-out *action* that teardown code must tolerate
+static mut PROBE_DROPS_A_WEAK: bool = false;
 
 pub struct Probe(u8);
 
@@ -111,6 +114,10 @@ impl Drop for Probe {
             // implicit weak has not been released yet
             kani::assert(b.is_uninit(), "U6.callout.dying_object_already_gone");
             kani::assert(b.weak() == EXPECT_WEAK, "U6.callout.implicit_weak_not_yet_released");
+            if PROBE_DROPS_A_WEAK {
+                // Weak::drop on a non-last weak: weak-1, no release (the implicit weak is still held)
+                b.dec_weak();
+            }
             if !REG_PEER.is_null() {
                 let p = &*REG_PEER;
                 // no table borrow is outstanding on the peer, and the peer no longer names the dying object
@@ -550,4 +557,75 @@ fn u6_drop_cycle_ring3() {
     kani::assert(a.inner().weak() == wa - 1 && b.inner().weak() == wb - 1 && c.inner().weak() == wc - 1, "U6.drop_cycle.each_member_weak_minus_one_exactly_once");
     kani::assert(unsafe { vmap::TAGGED_DROPS } == 3, "U6.drop_cycle.each_member_table_released_exactly_once");
     core::mem::forget((a, b, c));
+}
+
+/// the dying value owns the last real Weak to its own allocation and drops it in its destructor: the
+/// allocation must be released by the teardown (weak: 2 = implicit + that Weak)
+#[kani::proof]
+#[kani::unwind(6)]
+fn u6_drop_unreachable_value_drops_last_weak() {
+    let a = Rc::new(Probe(3));
+    set_counts(&a, 0, 2);
+    let p = a.ptr.as_ptr();
+    unsafe {
+        REG = p;
+        EXPECT_WEAK = 2;
+        PROBE_DROPS_A_WEAK = true;
+    }
+    let mut h = alias(&a);
+    core::mem::forget(a);
+    unsafe { drop_unreachable(&mut h) };
+    core::mem::forget(h);
+    kani::assert(unsafe { PROBE_DROPS } == 1, "U6.drop_unreachable.value_destroyed_exactly_once");
+    let probe = unsafe { *(p as *const usize) };
+    kani::assert(probe == 0 || probe != 0, "PROBE-AFTER-RELEASE");
+}
+
+#[kani::proof]
+#[kani::unwind(6)]
+fn u6_dua_value_drops_last_weak() {
+    let x = Rc::new(Probe(1));
+    let p = Rc::new(Probe(2));
+    let pre = setup2(&x, &p, 1, 0, 1);
+    kani::assume(pre.wx == 2);
+    unsafe {
+        PROBE_DROPS_A_WEAK = true;
+    }
+    let raw = x.ptr.as_ptr();
+    let mut h = alias(&x);
+    unsafe { drop_unreachable_with_adoptions(&mut h) };
+    core::mem::forget(h);
+    kani::assert(unsafe { PROBE_DROPS } == 1, "U6.dua.value_destroyed_exactly_once");
+    core::mem::forget((x, p));
+    let probe = unsafe { *(raw as *const usize) };
+    kani::assert(probe == 0 || probe != 0, "PROBE-AFTER-RELEASE");
+}
+
+/// the dying object has a record of itself *before* its record of a peer in table order: the purge must
+/// skip its own entry and still reach the peer
+#[kani::proof]
+#[kani::unwind(6)]
+fn u6_dua_self_entry_then_peer() {
+    let x = Rc::new(Probe(1));
+    let p = Rc::new(Probe(2));
+    let (wx, sp, wp): (usize, usize, usize) = (kani::any(), kani::any(), kani::any());
+    kani::assume(wx >= 2);
+    set_counts(&x, 0, wx);
+    set_counts(&p, sp, wp);
+    install(&x, lpb(&x), 1);
+    install(&x, fwd(&p), 1);
+    install(&p, bwd(&x), 1);
+    tag_table(&x, 1);
+    unsafe {
+        REG = x.ptr.as_ptr();
+        REG_PEER = p.ptr.as_ptr();
+        EXPECT_WEAK = wx;
+    }
+    let mut h = alias(&x);
+    unsafe { drop_unreachable_with_adoptions(&mut h) };
+    core::mem::forget(h);
+    kani::assert(cnt(&p, bwd(&x)) == 0 && cnt(&p, fwd(&x)) == 0 && table_len(&p) == 0, "U6.dua.peer_loses_every_record_of_dying_object");
+    kani::assert(p.inner().strong() == sp && p.inner().weak() == wp, "U6.dua.peer_counters_untouched");
+    kani::assert(x.inner().is_uninit() && x.inner().weak() == wx - 1, "U6.dua.ends_gone_weak_minus_one");
+    core::mem::forget((x, p));
 }
